@@ -436,9 +436,14 @@ func senParser() *kind {
 		if l, ok := like.(*sen.Parser); ok {
 			p.Reuse = l.Reuse
 		}
+		// a token function that keeps what it is given (what a parser hands out it must not take back)
+		p.AddTokenFunc("list", func(args ...any) any { return args })
 		return p
 	}}
 	P := func(inst any) *sen.Parser { return inst.(*sen.Parser) }
+	k.ops = append(k.ops,
+		parseOp("Parse:token-function", "valid", `[list(1 2 3) x]`, func(i any, b []byte) (any, error) { return P(i).Parse(b) }),
+		parseOp("ParseReader:token-function", "valid", `list(1 [2] "s")`, func(i any, b []byte) (any, error) { return P(i).ParseReader(bytes.NewReader(b)) }))
 	for _, d := range senValid {
 		k.ops = append(k.ops, parseOp("Parse:"+d.class, "valid", d.text, func(i any, b []byte) (any, error) { return P(i).Parse(b) }))
 	}
